@@ -210,6 +210,10 @@ func runC09(c *Ctx) {
 	// ---- C09.5 guarded supplier-map inserts
 	c09SupplierMap(c, "C09.5")
 
+	// ---- C09.7 / C09.8 (second round)
+	ruleArgumentOnlyWhenUnsupplied(c, "C09.7")
+	ruleTypeIdentity(c, "C09.8", genPkg)
+
 	// ---- C09.6 safety net in Build
 	if build := resolveRole(c, genPkg, "(*Graph).Build"); build != nil {
 		c.seen(fnName(build))
